@@ -43,7 +43,9 @@ def judge(path: str, password, supplied_password: bool, workdir: str):
         if got != want:
             return [("harness:extraction-disagrees-with-reference", "")]
     except Exception as ex:
-        return [("harness:extraction-raises", f"{type(ex).__name__}")]
+        # py7zr cannot extract an archive the reference reader decodes (a reader-conformance matter, C06): the listings are
+        # still judged - against the bytes the format assigns to each member, which is what extraction would have to deliver
+        out.append(("harness:extraction-raises", f"{type(ex).__name__}"))
     try:
         z = py7zr.SevenZipFile(path, "r", password=password if supplied_password else None)
     except Exception as ex:
